@@ -20,7 +20,7 @@ RULE = ("Hypothesis draws (store algorithm, content with boundary-biased size, k
         "(kind, algorithm, size class, offset class, shape of the history).")
 ASSUMPTIONS = ["contents up to 5*8192+1 bytes", "single thread", "local POSIX file system (tmpfs)"]
 
-OTHERS = ["target:pid", "the/target:pid.2"]  # a suffix and an extension of the target pid
+OTHERS = ["target:pid", "the/target:pid.2", "THE/TARGET:PID"]  # a suffix, an extension and a case variant of the target pid
 TARGET = "the/target:pid"
 
 
@@ -53,8 +53,10 @@ def _case(draw, tier):
     with_pid = draw(st.sampled_from([True, True, True, False]))
     reject_first = draw(st.sampled_from([None, None, None, "size", "cks"])) if with_pid else None
     hist = draw(st.lists(_other_ops(cfg["algo"]), min_size=0, max_size=10)) if with_pid else []
+    # calls on the other pids BEFORE the target is stored (they may own the content first)
+    pre = draw(st.lists(_other_ops(cfg["algo"]), min_size=0, max_size=3)) if with_pid else []
     return {"cfg": cfg, "contents": [content, other], "docs": [{"hex": "6d657461"}], "kind": kind,
-            "offset": offset, "with_pid": with_pid, "reject_first": reject_first, "ops": hist}
+            "offset": offset, "with_pid": with_pid, "reject_first": reject_first, "ops": hist, "pre": pre}
 
 
 def strategy(tier):
@@ -93,6 +95,14 @@ def _stream_fault_case(case, ctx):
             run.close()
             break
         ctx.count()
+        if is_ok(out):
+            # the call reported success although an operation failed: the round trip must still hold
+            o = common.retrieve_bytes(store, TARGET)
+            om = out[1]
+            if om.obj_size != len(data) or not is_ok(o) or o[1] != data:
+                ctx.violation("success-with-wrong-content", f"store_object({case['kind']} stream, {len(data)} bytes) with "
+                              f"{inj.describe()} returned obj_size={om.obj_size} and the pid yields "
+                              f"{o[1] if not is_ok(o) else seq._short(o[1])}", {"what": "faulted store_object"})
         what = f"a store_object({case['kind']} stream at offset {pos}, {len(data)} bytes) that failed with {inj.describe()}"
         if stream.closed:
             ctx.violation("stream-closed", f"caller's stream was closed by {what}", {"what": "failed store_object"})
@@ -103,6 +113,22 @@ def _stream_fault_case(case, ctx):
         run.close()
         common.rmtree(d)
         k += 1
+    # short writes: every fd-level os.write under the store root writes only half of what it was given
+    # (legal OS behaviour, e.g. at a quota / file-size limit); buffered file objects retry by themselves
+    d = os.path.join(run.work, "sw")
+    store = common.make_store(d, run.cfg)
+    arg, stream = run.data_arg(0, case["kind"], case["offset"])
+    with fsi.active(d, lambda ev: None) as fctx:
+        fctx.write_hook = lambda n: max(1, n // 2)
+        out = common.call(store.store_object, TARGET, arg)
+    ctx.count()
+    if is_ok(out):
+        o = common.retrieve_bytes(store, TARGET)
+        if out[1].obj_size != len(data) or not is_ok(o) or o[1] != data:
+            ctx.violation("short-write-lost-data", f"store_object({case['kind']} stream, {len(data)} bytes) under short os.write()s "
+                          f"returned obj_size={out[1].obj_size}; the pid yields {o[1] if not is_ok(o) else seq._short(o[1])}",
+                          {"what": "short writes"})
+    run.close()
     ctx.classify("stream-fault-scenarios")
     ctx.sample({"family": "stream left alone by a failing call", "kind": case["kind"], "offset": case["offset"],
                 "len": len(data), "fault_sites": k})
@@ -127,6 +153,8 @@ def run_case(case, ctx):
     cfg = run.cfg
     pid = TARGET if case["with_pid"] else None
     kind, offset = case["kind"], case["offset"]
+    for op in case.get("pre", []):
+        run.step(op)
     # optional first attempt that must be rejected and must leave the stream alone
     if case.get("reject_first"):
         op = {"op": "store", "pid": pid, "c": 0, "kind": kind, "offset": offset, "cks_algo": "sha256"}
@@ -177,8 +205,10 @@ def run_case(case, ctx):
     ctx.classify("algo=" + cfg.algo)
     if case["ops"]:
         ctx.classify("with-history")
-    trivial = kind == "str" and offset == 0 and sc in ("small", "multi") and not case["ops"]
+    if case.get("pre"):
+        ctx.classify("other-pids-active-before-the-store")
+    trivial = kind == "str" and offset == 0 and sc in ("small", "multi") and not case["ops"] and not case.get("pre")
     if not trivial:
-        ctx.nontrivial([kind, cfg.algo, sc, oc, shape])
+        ctx.nontrivial([kind, cfg.algo, sc, oc, shape, [o["op"] for o in case.get("pre", [])]])
         ctx.sample({"kind": kind, "algo": cfg.algo, "len": n, "offset": offset, "with_pid": case["with_pid"],
                     "reject_first": case.get("reject_first"), "history": shape})
